@@ -6,6 +6,7 @@ sys.path.insert(0, os.path.join(os.path.dirname(os.path.abspath(__file__)), ".."
 import vf
 import lanes
 import fpgen
+import sweep
 
 FT = [("f32", 4, 8, 23), ("f64", 8, 11, 52)]
 UN = ["exp", "exp2", "exp10", "expm1", "log", "log2", "log10", "log1p", "sin", "cos", "tan", "asin", "acos", "atan", "sinh", "cosh", "tanh",
@@ -104,6 +105,34 @@ def body(ctx):
                 plan.append("m1 %s %s 0 %s - - -" % (op, t, r))
                 plan.append("m1 %s %s 0 %s - - -" % (op, t, neg_row(r, nb)))
                 rel.append(("pair", op, t, len(plan) - 1, len(plan), None, None))
+        if not os.environ.get("VERIF_NO_SWEEP"):
+            # selector sweep: every float32 bit pattern (quick: every 64th, thorough: every 4th) / seeded double rows: parity bit for bit
+            # (f(-x) against f(x)) and NaN exactly outside the domain (against libm); disagreeing rows join the plan and are judged by TLC
+            archs = ctx.q(["sse2", "fma3<avx2>", "avx512f"], ["sse2", "sse4_1", "avx2", "fma3<avx2>", "avx512f"])
+            stride = int(os.environ.get("VERIF_SWEEP_STRIDE", "0")) or ctx.q(64, 4)
+            jobs = []
+            for ai, arch in enumerate(archs):
+                sd = ctx.seed * 23 + ai
+                for op in PARITY:
+                    mode = "even" if op in ("cos", "cosh") else "odd"
+                    if t == "f32":
+                        jobs.append(sweep.job("m1", op, t, arch, mode, "-", stride, sd, 0, 0x7FFFFFFF, "+"))
+                    else:
+                        jobs.append(sweep.job("m1", op, t, arch, mode, "-", ctx.q(10000, 300000), sd, 1, 0x7FEFFFFFFFFFFFFF, "+"))
+                for op in ("log", "log2", "log10", "log1p", "sqrt", "asin", "acos", "atanh", "acosh"):
+                    if t == "f32":
+                        jobs.append(sweep.job("m1", op, t, arch, "dom", op, stride, sd, 0, 0x7FFFFFFF, "+-"))
+                    else:
+                        jobs.append(sweep.job("m1", op, t, arch, "dom", op, ctx.q(10000, 300000), sd, 1, 0x7FEFFFFFFFFFFFFF, "+-"))
+            srows, _info = sweep.run(ctx, "math", jobs, "c12sel_" + t, keep=ctx.q(8, 32))
+            for r in srows:
+                row = sweep.hexrow(r, nb)
+                if r["mode"] == "dom":
+                    plan.append("m1 %s %s 0 %s - - -" % (r["op"], t, row))
+                else:
+                    plan.append("m1 %s %s 0 %s - - -" % (r["op"], t, row))
+                    plan.append("m1 %s %s 0 %s - - -" % (r["op"], t, neg_row(row, nb)))
+                    rel.append(("pair", r["op"], t, len(plan) - 1, len(plan), None, None))
         srow = prow[:: ctx.q(3, 1)] + [neg_row(r, nb) for r in prow[:: ctx.q(6, 1)]] + make_rows(ctx, bits, nb)[:: ctx.q(4, 1)]
         for r in srow:
             plan.append("m1x2 sincos %s 0 %s - - -" % (t, r))
